@@ -228,7 +228,8 @@ def run(c):
     wd = tlc.scratch('c07_')
     c.rule = ('cases = object-graph instances with sharing/cycles and 1-3 watches whose value is already in the frame or '
               'new, run on the real agent with the normal and with a tiny watch budget, projected table + watch results '
-              'validated by Trace_Collector (Closed, OneIdPerObject, WatchClosed, WatchDedup on every state); plus watches '
+              'validated by Trace_Collector (Closed, OneIdPerObject, WatchClosed, WatchDedup on every state); the same for '
+              'objects shared by several frames of the stack (all_frame); plus watches '
               'creating fresh same-shaped temporaries and aliases; non-trivial = at least 3 variables recorded')
     c.assumptions = ['object identity is CPython id() for objects alive during the event']
     c.mc('MC_Collector', c05.mc_cfg(W_SMALL, live=True), label='graphs with watches, 2 nodes', must_cover=['Step'])
@@ -250,6 +251,17 @@ def run(c):
         for i in insts2:
             i['maxVars'] = rng.choice([2, 3, 5, 8])
         traces, meta, sk = run_instances_budget(c, insts2, wd, 'watches-small-budget', 3)
+    c05.validate(c, traces, meta)
+    # objects held by several frames of the stack (frame_type all_frame): recorded once, referred to from every frame
+    fr = []
+    for _ in range(100 if quick else 3000):
+        inst = G.random_instance(rng, max_nodes=5, kinds=('int', 'str', 'list', 'dict', 'obj'))
+        inst['maxVars'] = rng.choice([3, 5, 1000])
+        n = len(inst['kind'])
+        inst['frames'] = [[rng.choice(inst['roots'] + [rng.randint(1, n)]) for _ in range(rng.randint(1, 3))]
+                          for _ in range(rng.randint(1, 2))]
+        fr.append(inst)
+    traces, meta, sk = c05.run_frame_instances(c, fr, wd, 'shared-across-frames')
     c05.validate(c, traces, meta)
     temporaries_leg(c, wd)
 
